@@ -231,7 +231,7 @@ def follow(links, cache, containers, failed, when, hist):
 
 
 def uncleaned(links, cache, containers, apps_dir, only_previously_running,
-              when, hist):
+              when, hist, raced=None):
     """A container whose cache entry is gone (or belongs to a newer
     generation) is in cleanup or already removed."""
     in_cleanup = {target for (kind, _n), target in links.items()
@@ -254,6 +254,10 @@ def uncleaned(links, cache, containers, apps_dir, only_previously_running,
             via = 'via-cleanup-link-overwritten-by-' + _by(lost['by'])
         elif rec['failed']:
             via = 'via-failed-configure'
+        elif raced and rec['inst'] in raced:
+            # the event manager changed the entry while the synchronisation
+            # that handled this container was running
+            via = 'via-cache-entry-%s-during-sync' % raced[rec['inst']]
         elif 'cleanup' in _siblings(links, containers, rec['inst'],
                                     rec['gen']):
             via = 'via-other-generation-in-cleanup'
